@@ -15,6 +15,7 @@ Line protocol for C16.  Rationals are `n` or `n/d`; sections are separated by `|
 * `c16.table F | R`                    → `R'` or `RAISES`                     (`xformTable`)
 * `c16.mesh F | R | faces`             → `R' | faces'`                        (`mirrorMesh`)
 * `c16.symm lo,hi | G | G0 | R`        → `R'`                                 (`symmetrize`)
+* `c16.symmn lo,hi | G | G0 | N`       → `N'` or `RAISES`                     (`symmetrizeNeuron`)
 * `c16.tangents eps | dirs | vects`    → `ok=1` / `ok=0`                      (`tangentsOK`)
 * `c16.size lo,hi`                     → `lo+hi`                              (`axisSize`)
 -/
@@ -222,6 +223,16 @@ def run (cmd : String) (rest : String) : Option String :=
       let g ← parseFn g; let g0 ← parseFn g0; let r ← parsePts r
       match (items b ",").mapM parseRat with
       | some [lo, hi] => pure (showPts (symmetrize lo hi g g0 r))
+      | _ => none
+    | _ => none
+  | "symmn" => match rest.splitOn "|" with
+    | [b, g, g0, n] => do
+      let g ← parseFn g; let g0 ← parseFn g0; let n ← parseNeuron n
+      match (items b ",").mapM parseRat with
+      | some [lo, hi] =>
+        pure (match symmetrizeNeuron (symmetrize lo hi g g0) n with
+          | some out => showNeuron out
+          | none => "RAISES")
       | _ => none
     | _ => none
   | "tangents" => match rest.splitOn "|" with
